@@ -102,7 +102,7 @@ def _depth(t):
 def _has_special(t):
     k = t[0]
     if k == "i":
-        return not (-2 ** 31 <= int(t[1]) < 2 ** 31)
+        return not (-2 ** 31 <= int(t[1], 0) < 2 ** 31)
     if k == "f":
         return cn.is_nan_bits(t[1]) or t[1] in ("7ff0000000000000", "fff0000000000000", "8000000000000000")
     if k == "c":
